@@ -21,6 +21,12 @@ class Ret(Exception):
         self.v = v
 
 
+class Thrown(Exception):
+    """the analysed code throws on this abstract state (e = the thrown expression)"""
+    def __init__(self, e):
+        self.e = e
+
+
 class Obj(dict):
     """struct value"""
 
@@ -67,7 +73,14 @@ class Interp:
                 self.stmt(c, env)
         elif k == 'decls':
             for v in s['d']:
-                env[v['id']] = self.expr(v['init'], env) if v.get('init') is not None else None
+                val = self.expr(v['init'], env) if v.get('init') is not None else None
+                t = (v.get('type') or '').strip()
+                if isinstance(val, (Obj, list)) and t and not t.endswith(('&', '*')) and not t.startswith(('std::shared_ptr', 'std::unique_ptr', 'std::weak_ptr')) \
+                        and not t.startswith('const std::shared_ptr'):
+                    # copy-initialisation of a value type: the new object is independent of its source
+                    import copy as _copy
+                    val = _copy.deepcopy(val)
+                env[v['id']] = val
         elif k == 'expr':
             self.expr(s['e'], env)
         elif k == 'if':
@@ -192,6 +205,16 @@ class Interp:
             return chr(e['v'])
         if k == 'nullptr':
             return None
+        if k == 'throw':
+            raise Thrown(e.get('e'))
+        if k == 'dyncast':
+            v = self.expr(e['e'], env)
+            if v is None:
+                return None
+            if isinstance(v, Obj) and '__class' in v:
+                want = e.get('type', '').replace('const ', '').replace('*', '').strip().split('::')[-1]
+                return v if want in v['__class'] else None
+            raise Unsupported('dynamic_cast of an object whose class is not modelled')
         if k == 'this':
             if 'this' in env:
                 return env['this']
@@ -217,7 +240,13 @@ class Interp:
                 raise Unsupported('field ' + e['name'])
             raise Unsupported('member of non-struct: ' + SX.show(e))
         if k == 'cast':
-            return self.expr(e['e'], env)
+            v = self.expr(e['e'], env)
+            t = e.get('type', '')
+            if t in ('double', 'float') and isinstance(v, int) and not isinstance(v, bool):
+                return float(v)
+            if t in ('int', 'long', 'std::int64_t', 'long long', 'unsigned long', 'size_t') and isinstance(v, float):
+                return int(v)
+            return v
         if k == 'un':
             op = e['op']
             if op == '!':
@@ -297,6 +326,8 @@ class Interp:
             name = SX.short(SX.callee(e))
             if name in self.models:
                 return self.models[name](self, e, env)
+            if k == 'call' and (SX.callee(e) or '').startswith(('std::move', 'std::forward')) and len(SX.real_args(e)) == 1:
+                return self.expr(SX.real_args(e)[0], env)
             if k == 'mcall' and name in ('operator bool', 'has_value') and not SX.real_args(e):
                 return self.expr(e['obj'], env) is not None
             if k == 'mcall':
@@ -306,6 +337,16 @@ class Interp:
             fs = [f for f in self.p.resolve(e) if f.body]
             if len(fs) == 1:
                 args = [self.expr(a, env) for a in SX.real_args(e)]
+                if k == 'mcall' and SX.is_node(e.get('obj')):
+                    # a member function runs on its object: `this` inside the callee is the evaluated object expression
+                    o = SX.strip(e['obj'])
+                    if SX.is_node(o) and o.get('k') == 'this':
+                        if 'this' in env:
+                            return self.call_fn_env(fs[0], args, {'this': env['this']})
+                    else:
+                        ov = self.expr(e['obj'], env)
+                        if isinstance(ov, Obj):
+                            return self.call_fn_env(fs[0], args, {'this': ov})
                 return self.call_fn(fs[0], args)
             raise Unsupported('call ' + SX.callee(e))
         if k == 'construct':
@@ -313,10 +354,27 @@ class Interp:
             if 'ctor:' + t in self.models:
                 return self.models['ctor:' + t](self, e, env)
             a = SX.real_args(e)
+            rec = self.p.facts.records.get(e['type'])
+            if rec and a and e.get('inroot'):
+                ctors = [f for f in self.p.functions if f.kind == 'ctor' and f.name == e.get('ctor') and (e.get('sig') is None or f.sig == e.get('sig'))]
+                if len(ctors) == 1 and (ctors[0].d.get('inits') or ctors[0].body):
+                    c = ctors[0]
+                    o = self.default_struct(rec, env)
+                    cenv = {'this': o}
+                    for prm, arg in zip(c.params, e.get('args', [])):
+                        cenv[prm['id']] = self.expr(arg, env)
+                    for i in c.d.get('inits', []):
+                        if i.get('member'):
+                            o[i['member']] = self.expr(i['init'], cenv)
+                    if c.body:
+                        try:
+                            self.stmt(c.body, cenv)
+                        except Ret:
+                            pass
+                    return o
             if len(a) == 1:
                 return self.expr(a[0], env)
             if not a:
-                rec = self.p.facts.records.get(e['type'])
                 if rec:
                     return self.default_struct(rec, env)
                 if e['type'].startswith('std::string'):
@@ -422,7 +480,8 @@ class Interp:
             if f.get('init') is not None:
                 o[f['name']] = self.expr(f['init'], env)
             else:
-                o[f['name']] = 0 if f['type'] in ('int', 'long', 'bool', 'double', 'unsigned long') else None
+                t = f['type']
+                o[f['name']] = 0 if t in ('int', 'long', 'bool', 'double', 'unsigned long') else ([] if t.startswith('std::vector') else ('' if t.startswith('std::string') else None))
         return o
 
     def store(self, l, v, env):
@@ -469,6 +528,20 @@ class Interp:
             return a - b
         if op == '*':
             return a * b
+        if op == '/':
+            if isinstance(a, float) or isinstance(b, float):
+                return a / b
+            q = abs(a) // abs(b)
+            return q if (a >= 0) == (b >= 0) else -q
+        if op == '%':
+            r = abs(a) % abs(b)
+            return r if a >= 0 else -r
+        if op == '&':
+            return a & b
+        if op == '|':
+            return a | b
+        if op == '^':
+            return a ^ b
         raise Unsupported('binary ' + op)
 
 
